@@ -100,9 +100,9 @@ def coq_sources():
     return sorted(out)
 
 
-def forbidden_scan():
+def forbidden_scan(files=None):
     bad = []
-    for f in coq_sources():
+    for f in (files if files is not None else coq_sources()):
         txt = open(os.path.join(COQ, f)).read()
         txt = re.sub(r"\(\*.*?\*\)", "", txt, flags=re.S)
         for m in FORBIDDEN.finditer(txt):
@@ -116,24 +116,60 @@ def forbidden_scan():
     return bad
 
 
-def build_coq(log):
-    """Incremental full .vo build of the whole development under a lock."""
+COQC = "timeout 3000 coqc -Q . NV -w -notation-overridden,-deprecated-hint-without-locality,-deprecated-instance-without-locality "
+
+
+def coq_deps(rel):
+    """NV-internal dependencies of a source file (relative paths), from its Require lines."""
+    txt = re.sub(r"\(\*.*?\*\)", "", open(os.path.join(COQ, rel)).read(), flags=re.S)
+    deps = []
+    for m in re.finditer(r"From\s+NV\s+Require\s+(?:Import|Export)?\s*([^.]*(?:\.[A-Za-z_][\w]*)*)\s*\.(?=\s)", txt):
+        for mod in m.group(1).split():
+            f = mod.replace(".", "/") + ".v"
+            if os.path.exists(os.path.join(COQ, f)):
+                deps.append(f)
+    for m in re.finditer(r"Require\s+(?:Import|Export)?\s+((?:NV\.[\w.]+\s*)+)\.(?=\s)", txt):
+        for mod in m.group(1).split():
+            f = mod[3:].replace(".", "/") + ".v"
+            if os.path.exists(os.path.join(COQ, f)):
+                deps.append(f)
+    return deps
+
+
+def ensure_built(rel, log, seen=None):
+    """Compile rel (and, first, everything it depends on) if its .vo is missing or stale. Returns newest mtime or None on error."""
+    seen = {} if seen is None else seen
+    if rel in seen:
+        return seen[rel]
+    seen[rel] = None
+    newest = os.path.getmtime(os.path.join(COQ, rel))
+    for d in coq_deps(rel):
+        t = ensure_built(d, log, seen)
+        if t is None:
+            return None
+        newest = max(newest, t)
+    vo = os.path.join(COQ, rel + "o")
+    if not os.path.exists(vo) or os.path.getmtime(vo) < newest:
+        rc, out = sh(COQC + rel, 3100, COQ)
+        if rc != 0 or not os.path.exists(vo):
+            log.append("coqc %s failed:\n%s" % (rel, out[-1500:]))
+            return None
+    seen[rel] = os.path.getmtime(vo)
+    return seen[rel]
+
+
+def build_coq(log, prop):
+    """Build (full .vo compilation) Props/<prop>.v and its dependency closure, under a lock."""
     lock = open(os.path.join(COQ, ".lock"), "w")
     fcntl.flock(lock, fcntl.LOCK_EX)
     try:
-        srcs = coq_sources()
-        proj = open(os.path.join(COQ, "_CoqProject.head")).read() + "\n".join(srcs) + "\n"
-        pj = os.path.join(COQ, "_CoqProject")
-        if not os.path.exists(pj) or open(pj).read() != proj or not os.path.exists(os.path.join(COQ, "Makefile")):
-            open(pj, "w").write(proj)
-            rc, out = sh("coq_makefile -f _CoqProject -o Makefile", 120, COQ)
-            if rc != 0:
-                log.append(out)
-                return False
-        rc, out = sh("timeout 3000 make -j%d 2>&1 | tail -40" % (os.cpu_count() or 4), 3100, COQ)
-        ok = (rc == 0) and ("Error" not in out)
-        if not ok:
-            log.append(out)
+        rel = "Props/%s.v" % prop
+        if not os.path.exists(os.path.join(COQ, rel)):
+            log.append("missing " + rel)
+            return False
+        seen = {}
+        ok = ensure_built(rel, log, seen) is not None
+        build_coq.closure = sorted(seen.keys())
         return ok
     finally:
         fcntl.flock(lock, fcntl.LOCK_UN)
@@ -236,11 +272,15 @@ def coq_show(work, expr, imports):
 
 # ---------------------------------------------------------------- known findings
 def load_known(prop):
-    p = os.path.join(VERIF, "known_findings.json")
-    if not os.path.exists(p):
-        return []
-    d = json.load(open(p))
-    return [f for f in d.get("findings", []) if f["property"] == prop]
+    out = []
+    paths = [os.path.join(VERIF, "known_findings.json")]
+    d = os.path.join(VERIF, "known_findings.d")
+    if os.path.isdir(d):
+        paths += [os.path.join(d, f) for f in sorted(os.listdir(d)) if f.endswith(".json")]
+    for p in paths:
+        if os.path.exists(p):
+            out += [f for f in json.load(open(p)).get("findings", []) if f["property"] == prop]
+    return out
 
 
 def match_known(known, famname, case, out):
@@ -300,8 +340,8 @@ def main(argv):
     # 1. proofs
     proof = {"ok": True, "theorems": [], "axioms": [], "errors": [], "checker_cmd": "skipped"}
     if not a.no_proof:
-        bad_tokens = forbidden_scan()
-        built = build_coq(log)
+        built = build_coq(log, prop)
+        bad_tokens = forbidden_scan(getattr(build_coq, 'closure', None))
         proof = check_props(prop, log) if built else {"ok": False, "theorems": [], "axioms": [], "errors": ["coq build failed: " + "\n".join(log)[-1500:]], "checker_cmd": "make"}
         if bad_tokens:
             proof["ok"] = False
